@@ -104,7 +104,12 @@ def netTrajCmd (j : Json) : Except String Json := do
     | _ => pure []
   let extAt : Nat → Path → List Rat := fun k p =>
     (inputs.filter (fun i => i.1 == p)).map (fun i => i.2.getD k 0)
-  match trajectory I c extAt fuel heun dt steps 0 σ0 with
+  let des ← match fieldOpt j "delayed" with
+    | some (.arr a) => a.toList.mapM (fun x => do
+        pure ({ src := ← parsePath (← field x "src"), tgt := ← parsePath (← field x "tgt"), weight := ← getRat (← field x "w"),
+                delay := ← getNat (← field x "steps") } : DEdge))
+    | _ => pure []
+  match (if des.isEmpty then trajectory I c extAt fuel heun dt steps 0 σ0 else trajectoryD I c des extAt fuel heun dt steps 0 σ0 []) with
   | some rows => return Json.mkObj [("rows", Json.arr (rows.map (fun r => Json.mkObj (r.map (fun (p, v) => (pathStr p, jRat v))))).toArray)]
   | none => return Json.mkObj [("error", "unresolved")]
 
